@@ -32,6 +32,7 @@ def run(tier, argv):
                        "false-valued rules) x %d probe values on/inside/outside every boundary; verdict vectors by Sem!ScalarVerdict "
                        "(three-valued, %d unspecified cells skipped)" % (nc, nd, s["unspecified"]))
     bad += semcommon.random_tier(work, rep, hbin, True, (500 if quick else 20000))
+    bad += semcommon.diff_tier(work, rep, hbin, PROP, 30000 if quick else 1500000)
     for b in bad[:40]:
         rep.violation(b, "%s | doc %s | want %s got %s" % (b["schema"].replace("\n", "\\n")[:200], b.get("doc"), b["want"], json.dumps(b["got"])[:200]))
     rep.violations = len(bad)
